@@ -142,7 +142,7 @@ pub const F_EOPEN: u32 = 1 << 11; // hard: open() fails (EMFILE / EACCES / EIO /
 pub const F_ZERO_WRITE: u32 = 1 << 12; // hard: write() accepts nothing (returns 0), once or from then on
 pub const F_HARD: u32 = F_EIO_WRITE | F_ENOSPC_WRITE | F_EIO_READ | F_TRUNC_READ | F_BITFLIP_READ | F_EOPEN | F_ZERO_WRITE;
 
-pub const FAULT_NAMES: [(&str, u32); 13] = [
+pub const FAULT_NAMES: [(&str, u32); 14] = [
     ("short_write", F_SHORT_WRITE),
     ("eintr_write", F_EINTR_WRITE),
     ("short_read", F_SHORT_READ),
@@ -156,6 +156,7 @@ pub const FAULT_NAMES: [(&str, u32); 13] = [
     ("bitflip_read", F_BITFLIP_READ),
     ("eopen", F_EOPEN),
     ("zero_write", F_ZERO_WRITE),
+    ("spurious_wake", 0),
 ];
 
 #[derive(Clone, Debug, serde::Serialize, serde::Deserialize, PartialEq)]
@@ -215,6 +216,10 @@ pub struct SimCfg {
     /// and seeking fails with ESPIPE (reading works as usual) - what a FIFO or /dev/stdin gives a program
     #[serde(default)]
     pub pipe_like_paths: Vec<String>,
+    /// probability that a futex wait returns at once without having been woken (a spurious wake-up: legal,
+    /// every correct waiter re-checks its predicate)
+    #[serde(default)]
+    pub spurious_wake_rate: f64,
 }
 
 impl Default for SimCfg {
@@ -239,6 +244,7 @@ impl Default for SimCfg {
             max_alloc_bytes: 2 << 30,
             no_sticky_faults: false,
             pipe_like_paths: vec![],
+            spurious_wake_rate: 0.0,
         }
     }
 }
@@ -1250,6 +1256,16 @@ pub unsafe fn hook_futex(addr: *const AtomicU32, op: i32, val: u32, timeout: *co
                 return Some((-1, libc::EAGAIN));
             }
             s.stats.futex_waits += 1;
+            if !s.quiet && s.cfg.spurious_wake_rate > 0.0 {
+                let rate = s.cfg.spurious_wake_rate;
+                let widx = s.stats.futex_waits;
+                if s.dec.fault_at("futex", widx, |r| if r.chance(rate) { Some(("spurious_wake", 0)) } else { None }).is_some() {
+                    s.count_fault("spurious_wake");
+                    s.ev(me, Pt::Block, 0, 2);
+                    s.sched_point(me, Pt::Yield);
+                    return Some((0, 0));
+                }
+            }
             let deadline = if timeout.is_null() {
                 None
             } else {
